@@ -498,3 +498,19 @@ func (o *Obligation) instantiate() (Term, []string) {
 	}
 	return goal, extra
 }
+
+func (u *Unit) Notes() []string { return u.notes }
+
+// SafeName makes an obligation name usable as a file name.
+func SafeName(s string) string {
+	var b strings.Builder
+	for _, c := range s {
+		switch {
+		case c >= 'a' && c <= 'z', c >= 'A' && c <= 'Z', c >= '0' && c <= '9', c == '.', c == '-', c == '_':
+			b.WriteRune(c)
+		default:
+			b.WriteByte('_')
+		}
+	}
+	return b.String()
+}
